@@ -187,6 +187,10 @@ def corruptions(name, base, inst, rnd, k=8):
             a = [x for x in base if x != 0]
             return a + [0] if a else None
         ops.append(("merge_all_routes", merge_all))
+    if base and base[0] == 0 and cust:
+        # the opening depot visit (PDP forced to start at the depot, routes written with a leading depot) replaced by a customer:
+        # that customer is then served twice and the sequence no longer starts where it must
+        ops.append(("first_action_customer", lambda: [rnd.choice(cust)] + list(base[1:])))
     if name in ("op", "pctsp", "spctsp"):
         def append_unvisited():
             un = [c for c in allc if c not in base]
@@ -216,7 +220,7 @@ def corruptions(name, base, inst, rnd, k=8):
         out.append((nm, m))
     # always include the structured ones once
     for nm, f in ops:
-        if nm in ("merge_all_routes", "drop_short", "reverse", "append_unvisited"):
+        if nm in ("merge_all_routes", "drop_short", "reverse", "append_unvisited", "first_action_customer"):
             try:
                 m = f()
             except (IndexError, ValueError):
